@@ -211,6 +211,8 @@ def _make_path_function(jobs, path):
     if path is None:
         # Generate a path function based on the schema detected for jobs.
         path_function = _make_schema_based_path_function(jobs=jobs)
+        # Values of different types may share the same string representation.
+        _check_path_function_unique(jobs, path_spec=path, path_function=path_function)
 
     elif path is False:
         # Just use the job id as path.
